@@ -113,7 +113,7 @@ def cert(ctx, binary, n):
             removed = int((re.findall(r"#skip=(\d+)", lines[0]) or ["0"])[0])
             bad.append(goals[first + removed + idx[0]])
             rest = [l for i, l in enumerate(lines) if not (l.startswith("Goal certR") and i <= gl[idx[0]])]
-            rest[0] = re.sub(r"\(\*#skip=\d+\*\)", "", rest[0]) + "(*#skip=%d*)" % (removed + idx[0] + 1)
+            rest[0] = re.sub(r" ?\(\*#skip=\d+\*\)", "", rest[0]) + " (*#skip=%d*)" % (removed + idx[0] + 1)
             open(p, "w").write("\n".join(rest))
             if any(l.startswith("Goal certR") for l in rest):
                 nxt.append((k, p))
@@ -149,9 +149,9 @@ def run(ctx):
                       "tie lost: the C01 harness no longer builds against the library")
         return
     quick = ctx.tier == "quick"
-    bad = corr(ctx, binary, 45 if quick else 450)
-    badcert = cert(ctx, binary, 8 if quick else 40)
-    h = hunt(ctx, binary, 60 if (quick and not (bad or badcert or not ok)) else 600)
+    bad = corr(ctx, binary, 80 if quick else 500)
+    badcert = cert(ctx, binary, 10 if quick else 40)
+    h = hunt(ctx, binary, 150 if (quick and not (bad or badcert or not ok)) else 1000)
     ctx.cov["hunt_points"] = h.get("points", 0)
     unknown = []
     for hit in h.get("hits", []):
